@@ -76,3 +76,20 @@ void h_set_value(void) {
   schedule_receiver_set_value(&R);
   VF_CANARY("after set_value");
 }
+
+/* ---- bulk_transform: the policy reported downstream is the intersection of what the function's policy and the
+ * receiver's policy allow (include/unifex/bulk_transform.hpp, tag_invoke(get_execution_policy)) ---- */
+enum { POL_seq, POL_unseq, POL_par, POL_par_unseq };
+static int receiver_policy, Policy;    /* the two template arguments as values: all 16 combinations verified */
+#define ALLOWS_UNSEQ(p) ((p) == POL_unseq || (p) == POL_par_unseq)
+#define ALLOWS_PAR(p) ((p) == POL_par || (p) == POL_par_unseq)
+struct bt { int receiver_; };
+static struct bt BT_R;
+int bt_get_execution_policy(const struct bt* r)
+__CPROVER_requires(r == &BT_R && receiver_policy >= POL_seq && receiver_policy <= POL_par_unseq && Policy >= POL_seq && Policy <= POL_par_unseq)
+__CPROVER_assigns()
+__CPROVER_ensures(__CPROVER_return_value >= POL_seq && __CPROVER_return_value <= POL_par_unseq)
+__CPROVER_ensures(ALLOWS_UNSEQ(__CPROVER_return_value) == (ALLOWS_UNSEQ(receiver_policy) && ALLOWS_UNSEQ(Policy))) /* vectorised / interleaved calls only if BOTH the function and the downstream receiver permit them */
+__CPROVER_ensures(ALLOWS_PAR(__CPROVER_return_value) == (ALLOWS_PAR(receiver_policy) && ALLOWS_PAR(Policy))) /* concurrent calls only if BOTH permit them */
+/*@BODY bt_policy*/
+void h_bt_policy(void) { receiver_policy = VF_nondet_int(); Policy = VF_nondet_int(); __CPROVER_assume(receiver_policy >= 0 && receiver_policy <= 3 && Policy >= 0 && Policy <= 3); bt_get_execution_policy(&BT_R); VF_CANARY("after get_execution_policy"); }
